@@ -2,7 +2,7 @@
 
 INP_LEN = 320
 CAP = {"quick": 900, "thorough": 3600}     # wall-clock cap per harness (s)
-MEM_GB = 14                                # RLIMIT_AS per harness process tree
+MEM_GB = 24                                # RLIMIT_AS per harness process tree
 
 INST = [(0, "none"), (1, "none"), (1, "pull"), (1, "push"), (2, "none"), (2, "pull"), (2, "push"),
         (3, "none"), (3, "pull"), (3, "push")]
@@ -35,3 +35,276 @@ PLAN["C02"] = {
     "stubs": ALLOC_STUBS + "; " + FOCUS_NOTE,
     "assumptions": [INV_RULES, "the action is a legal step by the rule model (C01 shows offered = legal)"],
 }
+
+NOHASH_NOTE = ("Zobrist::move_piece (incremental hash) cut out: these bodies examine board and turn fields only; "
+               "the hash path is decided by the C08 harnesses (DESIGN §3.4)")
+Q3 = [(0, "none"), (1, "pull"), (3, "push")]
+
+
+def nh(jobs):
+    for j in jobs:
+        j["stubs"] = "alloc+nohash"
+    return jobs
+
+
+PLAN["C02"]["quick"] = nh(inst("c02_move", Q3)) + [{"h": "c02_pass_s1_pull", "unwind": 8, "stubs": "alloc+nohash"}]
+PLAN["C02"]["thorough"] = nh(inst("c02_move")) + [{"h": "c02_pass_s1_pull", "unwind": 8, "stubs": "alloc+nohash"},
+                                                    {"h": "c02_pass_s3_none", "unwind": 8, "stubs": "alloc+nohash"}]
+PLAN["C02"]["stubs"] = ALLOC_STUBS + "; " + NOHASH_NOTE
+
+PASS6 = [(1, "none"), (1, "pull"), (2, "none"), (2, "pull"), (3, "none"), (3, "pull")]
+PLAN["C03"] = {
+    "quick": nh(inst("c03_move", [(0, "none"), (2, "pull"), (3, "none"), (3, "push")]) + inst("c03_pass", [(1, "pull"), (3, "none")])),
+    "thorough": nh(inst("c03_move") + inst("c03_pass", PASS6)),
+    "bounds": "all boards, both sides, any move number < usize::MAX (symbolic 64-bit), symbolic legal action; step/pending kind concrete per instance; unwind 8",
+    "outside": "move_number == usize::MAX (the increment overflows; unreachable by play, DESIGN §8 D5)",
+    "stubs": ALLOC_STUBS + "; " + NOHASH_NOTE,
+    "assumptions": [INV_RULES, "move_number < usize::MAX", "the action is a legal step by the rule model / a legal pass"],
+}
+PLAN["C12"] = {
+    "quick": nh(inst("c12_move", [(0, "none"), (1, "pull"), (2, "push")])) + [
+        {"h": "c12_push_list_s1_push", "unwind": 8, "stubs": "alloc"}, {"h": "c12_pass_s1_pull", "unwind": 8, "stubs": "alloc+nohash"}],
+    "thorough": nh(inst("c12_move")) + [{"h": "c12_push_list_s%d_push" % s, "unwind": 8, "stubs": "alloc"} for s in (1, 2, 3)] + [
+        {"h": "c12_pass_s1_pull", "unwind": 8, "stubs": "alloc+nohash"}, {"h": "c12_pass_s3_none", "unwind": 8, "stubs": "alloc+nohash"}],
+    "bounds": "all boards, both sides, symbolic legal action, symbolic pending square/piece; unwind 8",
+    "outside": "quick tier: 3 of 10 take_action instances",
+    "stubs": ALLOC_STUBS + "; " + NOHASH_NOTE,
+    "assumptions": [INV_RULES, "the action is a legal step by the rule model"],
+}
+PLAN["C13"] = {
+    "quick": nh(inst("c13_move", [(0, "none"), (1, "pull"), (2, "push")])) + [{"h": "c13_pass_s1_pull", "unwind": 8, "stubs": "alloc+nohash"}],
+    "thorough": nh(inst("c13_move")) + [{"h": "c13_pass_s1_pull", "unwind": 8, "stubs": "alloc+nohash"}, {"h": "c13_pass_s3_none", "unwind": 8, "stubs": "alloc+nohash"}],
+    "bounds": "all boards with no unsupported trap piece (B3), both sides, all four traps, symbolic legal action; unwind 8",
+    "outside": "pre-states with an unsupported trap piece (parsed positions before their first action): there one step can remove several pieces",
+    "stubs": ALLOC_STUBS + "; " + NOHASH_NOTE,
+    "assumptions": [INV_RULES, "B3: no unsupported trap piece in the pre-state", "the action is a legal step by the rule model"],
+}
+PLAN["C14"] = {
+    "quick": nh(inst("c14_move", [(0, "none"), (2, "pull"), (3, "none")])) + [{"h": "c14_pass_s1_pull", "unwind": 8, "stubs": "alloc+nohash"}],
+    "thorough": nh(inst("c14_move")) + [{"h": "c14_pass_s1_pull", "unwind": 8, "stubs": "alloc+nohash"}, {"h": "c14_pass_s3_none", "unwind": 8, "stubs": "alloc+nohash"}],
+    "bounds": "all boards, arbitrary recorded earlier boards (3 x 7 symbolic words), symbolic legal action; unwind 8",
+    "outside": "quick tier: 3 of 10 instances",
+    "stubs": ALLOC_STUBS + "; " + NOHASH_NOTE,
+    "assumptions": [INV_RULES, "the action is a legal step by the rule model"],
+}
+
+PROJ_NOTE = ("map_bit_board_to_squares replaced by its projection on a symbolic focus square (every fact about the "
+             "entries of the real list from that square is preserved; the focus is universally quantified); "
+             "the real loop's contract is decided by mbts_contract_k*, element-wise consumption by the un-projected c01_small* runs")
+
+
+def c01(prefix, which=None, unwind=10, stubs="alloc+focus", **kw):
+    return inst(prefix, which, unwind=unwind, stubs=stubs, **kw)
+
+
+PLAN["C01"] = {
+    "quick": c01("c01_proj", [(0, "none"), (1, "pull"), (1, "push"), (3, "pull")]) +
+             c01("c01_small2", [(0, "none"), (2, "pull")], stubs="alloc") +
+             [{"h": "mbts_contract_k4", "unwind": 6, "stubs": "alloc"}],
+    "thorough": c01("c01_proj") + c01("c01_small2", stubs="alloc") + c01("c01_small4", unwind=18, stubs="alloc") +
+                [{"h": "mbts_contract_k4", "unwind": 6, "stubs": "alloc"}, {"h": "mbts_contract_k12", "unwind": 14, "stubs": "alloc"}],
+    "bounds": ("c01_proj: all 64-square boards (no piece-count bound), both sides, symbolic focus square and direction, "
+               "symbolic pending square/piece, unwind 10; c01_small<KP>: un-projected, boards with <= KP pieces (2 quick, 4 thorough); "
+               "mbts_contract: masks with <= K set bits (4 quick, 12 thorough)"),
+    "outside": ("masks with more than K bits in the loop contract; element-wise consumption by callers on boards with more than KP pieces; "
+                "'can be continued to a complete legal turn' is the induction C01+C03+C12 (push started => completion exists), not a separate solver query"),
+    "stubs": ALLOC_STUBS + "; " + PROJ_NOTE,
+    "assumptions": [INV_RULES],
+}
+
+LOWEST_NOTE = ("map_bit_board_to_squares replaced by its lowest-bit projection (has_move/is_terminal only test each "
+               "generator's list for emptiness, which the projection preserves exactly)")
+MID = [(1, "none"), (1, "pull"), (1, "push"), (2, "none"), (2, "pull"), (2, "push"), (3, "none"), (3, "pull"), (3, "push")]
+PLAN["C04"] = {
+    "quick": [{"h": "c04_start", "unwind": 8, "stubs": "alloc+lowest"}] +
+             inst("c04_mid", [(1, "pull"), (2, "none"), (3, "push")], unwind=10, stubs="alloc+lowest") +
+             [{"h": "c09_offered", "unwind": 8, "stubs": "alloc"}],
+    "thorough": [{"h": "c04_start", "unwind": 8, "stubs": "alloc+lowest"}] + inst("c04_mid", MID, unwind=10, stubs="alloc+lowest") +
+                [{"h": "c09_offered", "unwind": 8, "stubs": "alloc"}],
+    "bounds": ("turn start: all boards satisfying B1 (any material incl. no rabbits), both sides, all 8 goal files per side, "
+               "arbitrary hashes/history (<= 6 entries); mid-turn: all boards, symbolic pending; setup: every reachable setup board"),
+    "outside": "mid-turn at step 3 without a capture this turn (steps may be withheld by repetition; decided under C07/C05)",
+    "stubs": ALLOC_STUBS + "; " + LOWEST_NOTE,
+    "assumptions": ["B1", "mid-turn: T2; at step 3 a capture happened this turn"],
+}
+PLAN["C09"] = {
+    "quick": [{"h": "c09_offered", "unwind": 8, "stubs": "alloc"}, {"h": "c09_place", "unwind": 8, "stubs": "alloc"},
+              {"h": "c09_initial", "unwind": 8, "stubs": "alloc"}],
+    "thorough": [{"h": "c09_offered", "unwind": 8, "stubs": "alloc"}, {"h": "c09_place", "unwind": 8, "stubs": "alloc"},
+                 {"h": "c09_initial", "unwind": 8, "stubs": "alloc"}],
+    "bounds": ("every reachable setup board: k in 0..31 placements done, the first k squares of the order filled with any "
+               "types within the per-side limits (covers all 64,864,800^2 orders and all their prefixes), symbolic hash, symbolic placed type"),
+    "outside": "nothing inside the setup phase; states not satisfying the generator predicate are unreachable by induction (base: c09_initial, step: c09_place)",
+    "stubs": ALLOC_STUBS,
+    "assumptions": ["setup-state generator predicate (inductive: established by c09_initial, preserved by c09_place)"],
+}
+PLAN["C10"] = {
+    "quick": nh(inst("c10_step", [(0, "none"), (1, "pull"), (2, "push")])) + [{"h": "c10_access", "unwind": 8, "stubs": "alloc"},
+                                                                               {"h": "c09_place", "unwind": 8, "stubs": "alloc"}],
+    "thorough": nh(inst("c10_step")) + [{"h": "c10_access", "unwind": 8, "stubs": "alloc"}, {"h": "c09_place", "unwind": 8, "stubs": "alloc"}],
+    "bounds": "all boards satisfying B1+B2, symbolic legal step, symbolic probed square / type / side for the accessors; setup via the C09 generator",
+    "outside": "the printed diagram (Display goes through core::fmt; character-level output is outside reach, DESIGN §9/§5 C10)",
+    "stubs": ALLOC_STUBS + "; " + NOHASH_NOTE,
+    "assumptions": [INV_RULES, "B2 in the pre-state", "the action is a legal step by the rule model"],
+}
+PLAN["C17"] = {
+    "quick": [{"h": "c17_piece_values", "unwind": 8, "stubs": "none"}, {"h": "c17_side_step", "unwind": 8, "stubs": "none"},
+              {"h": "c17_pending", "unwind": 8, "stubs": "none"}, {"h": "c17_direct_k2", "unwind": 8, "stubs": "alloc"}],
+    "thorough": [{"h": "c17_piece_values", "unwind": 8, "stubs": "none"}, {"h": "c17_side_step", "unwind": 8, "stubs": "none"},
+                 {"h": "c17_pending", "unwind": 8, "stubs": "none"}, {"h": "c17_direct_k2", "unwind": 8, "stubs": "alloc"},
+                 {"h": "c17_direct_k3", "unwind": 8, "stubs": "alloc"}],
+    "bounds": ("all 768 piece-square values pairwise, side value, 4 step values pairwise, all 641 pending statuses pairwise "
+               "(symbolic indices into the real tables through the public Zobrist API); direct statement on states with <= KP pieces"),
+    "outside": "that the hash of a reachable state is the XOR of exactly these values is C08",
+    "stubs": ALLOC_STUBS + " (direct harness only)",
+    "assumptions": ["C08 (hash = XOR of feature values) links the value facts to states"],
+}
+
+FULL = {"mode": "full"}
+CUT_NOTE = ("parser harnesses: paths end where the first anyhow! error value is constructed (anyhow::private::format_err cut); what follows on "
+            "such paths in the four parsers is only Err propagation (read); allocation-policy stubs for the Vec<char> collections")
+C16_COMMON = ([{"h": "c16_" + n, "unwind": 8, "stubs": "alloc+anyhow-cut", "mode": "full"} for n in ["square_parse", "piece_parse", "dir_parse"]] +
+              [{"h": "c16_" + n, "unwind": 8, "stubs": "none", "mode": "full"} for n in
+               ["square_conv", "print_square", "print_piece_dir", "print_action_move", "print_action_pass", "print_action_place"]])
+PLAN["C16"] = {
+    "quick": C16_COMMON + [{"h": "c16_action_parse_len%d" % l, "unwind": 8, "stubs": "alloc+anyhow-cut", "mode": "full"} for l in (0, 1, 2, 3)],
+    "thorough": C16_COMMON + [{"h": "c16_action_parse_len%d" % l, "unwind": 8, "stubs": "alloc+anyhow-cut", "mode": "full"} for l in (0, 1, 2, 3, 4)],
+    "bounds": ("parsers: every byte string of length <= 3 (Square, Piece, Direction) / exactly 0..3 (quick) or 0..4 (thorough) bytes (Action) "
+               "that is valid UTF-8, i.e. including 2- and 3-byte characters; round trips: all 64 squares, 6 pieces, 4 directions, 263 actions; "
+               "all Kani checks on (overflow, bounds, unwrap, slicing)"),
+    "outside": "strings longer than the bound (they fail the chars().len() test before any indexing - read, not solver-checked)",
+    "stubs": CUT_NOTE,
+    "assumptions": [],
+}
+PLAN["C20"] = {
+    "quick": [{"h": "c20_list_n12", "unwind": 3, "stubs": "none", "loops_unwind": 14, "recursion_is_violation": True, "mode": "full"},
+              {"h": "c20_state", "unwind": 3, "stubs": "alloc", "loops_unwind": 9, "recursion_is_violation": True}],
+    "thorough": [{"h": "c20_list_n12", "unwind": 3, "stubs": "none", "loops_unwind": 14, "recursion_is_violation": True, "mode": "full"},
+                 {"h": "c20_list_n32", "unwind": 3, "stubs": "none", "loops_unwind": 34, "recursion_is_violation": True, "mode": "full"},
+                 {"h": "c20_state", "unwind": 3, "stubs": "alloc", "loops_unwind": 9, "recursion_is_violation": True}],
+    "bounds": ("history lists of symbolic length n <= N (12 quick, 32 thorough; 6 at game-state level): build, clone, count occurrences, "
+               "end a turn, drop - with recursion depth limited to 3 and CBMC's recursion unwinding assertions on"),
+    "outside": ("lengths above N are covered by the argument that a recursion bound independent of n <= N cannot depend on n; the native run at "
+                "300 000 turns on a 2 MiB thread is corroboration only; Debug-formatting a state is recursive and not part of the claim"),
+    "stubs": "none for the list harness; allocation-policy stubs for the state harness",
+    "assumptions": [],
+}
+SYMQ = [(0, "none"), (1, "pull"), (2, "push")]
+PLAN["C11"] = {
+    "quick": sum([inst("c11_actions_" + n, [(0, "none"), (1, "pull")], unwind=10, stubs="alloc+focus") +
+                  inst("c11_terminal_" + n, [(0, "none")], unwind=10, stubs="alloc+lowest") +
+                  nh(inst("c11_take_" + n, [(0, "none"), (2, "push")])) for n in ("mirror", "swap")], []),
+    "thorough": sum([inst("c11_actions_" + n, unwind=10, stubs="alloc+focus") +
+                     inst("c11_terminal_" + n, unwind=10, stubs="alloc+lowest") +
+                     nh(inst("c11_take_" + n)) for n in ("mirror", "swap")], []),
+    "bounds": "all boards, both symmetries (their composition follows), symbolic focus/action; one step of the game (induction over steps)",
+    "outside": ("which actions the repetition rules withhold: Zobrist values are not symmetric, so this part is covered through C06's "
+                "characterisation (symmetric by construction), not by a relational query"),
+    "stubs": ALLOC_STUBS + "; " + PROJ_NOTE + "; " + LOWEST_NOTE + "; " + NOHASH_NOTE,
+    "assumptions": [INV_RULES],
+}
+
+PLAN["C17"]["quick"] = [j for j in PLAN["C17"]["quick"] if j["h"] != "c17_direct_k2"]
+PLAN["C17"]["thorough"] = [j for j in PLAN["C17"]["thorough"] if not j["h"].startswith("c17_direct")] + [
+    {"h": "c17_direct_k2", "unwind": 8, "stubs": "alloc", "cap": 7200}]
+
+ABS_NOTE = ("Zobrist::move_piece abstracted by two arbitrary 64-bit values (same side / other side) xor a digest of the board it is asked "
+            "about, after asserting that this board is the result of the action and the step is 0; its concrete meaning is the C08 step lemma")
+IND_NOTE = ("the private 768-entry table lookup zobrist::piece_value replaced by the indicator of one symbolic (square, type, owner) triple: "
+            "the hash delta is GF(2)-linear in the table with table-independent coefficients, so agreement for every triple is agreement for every "
+            "table, in particular the real one (whose distinctness facts are C17)")
+COLLISION = "distinct positions compared by the repetition rules have distinct 64-bit hashes (cannot be discharged by any technique; single-feature cases: C17)"
+
+
+def hs(names, **kw):
+    return [dict({"h": n}, **kw) for n in names]
+
+
+PLAN["C08"] = {
+    "quick": inst("c08_step", [(0, "none"), (3, "pull")], stubs="alloc+indicator") + hs(["c08_pass_s1_pull", "c08_place", "c08_views_s1_pull"], unwind=8, stubs="alloc") +
+             hs(["c08_from_scratch_k3"], unwind=8, stubs="alloc+indicator"),
+    "thorough": inst("c08_step", stubs="alloc+indicator", cap=5400) + hs(["c08_pass_s%d_%s" % (a, b) for a, b in PASS6] + ["c08_place"] +
+                     ["c08_views_s0_none", "c08_views_s1_pull", "c08_views_s2_push", "c08_views_s3_none"], unwind=8, stubs="alloc") +
+                hs(["c08_from_scratch_k3", "c08_from_scratch_k6"], unwind=8, stubs="alloc+indicator", cap=7200),
+    "bounds": ("step lemma: all boards without unsupported trap piece, both sides, symbolic legal step, symbolic pre-hash, history <= 4 arbitrary entries, "
+               "symbolic target triple; pass and placement: all states; from-scratch function: boards with <= KP pieces (3 quick, 6 thorough); real map_bit_board_to_squares, unwind 8"),
+    "outside": "from-scratch hash of boards with more than KP pieces (the parser's path); boards with an unsupported trap piece in the step lemma (diff masks up to 6 bits still fit unwind 8, but B3 is assumed)",
+    "stubs": ALLOC_STUBS + "; " + IND_NOTE,
+    "assumptions": [INV_RULES, "B3 in the pre-state of the step lemma", "the action is a legal step by the rule model"],
+}
+PLAN["C05"] = {
+    "quick": hs(["c05_can_pass_s1_pull", "c05_can_pass_s3_none"], unwind=8, stubs="alloc") +
+             hs(["c05_passing_like_s3_none"], unwind=8, stubs="alloc+absmove") +
+             inst("c08_step", [(3, "none")], stubs="alloc+indicator") + hs(["c08_pass_s2_none"], unwind=8, stubs="alloc"),
+    "thorough": hs(["c05_can_pass_s%d_%s" % (a, b) for a, b in INST], unwind=8, stubs="alloc") +
+                hs(["c05_passing_like_s3_%s" % k for k in ("none", "pull", "push")], unwind=8, stubs="alloc+absmove") +
+                inst("c08_step", [(3, "none"), (3, "pull"), (3, "push")], stubs="alloc+indicator", cap=5400) +
+                hs(["c08_pass_s%d_%s" % (a, b) for a, b in PASS6], unwind=8, stubs="alloc") +
+                hs(["c06_whole2_s3_%s" % k for k in ("none", "pull", "push")], unwind=10, stubs="alloc+indicator"),
+    "bounds": "all boards; hashes, turn-initial hash and up to 6 history entries are arbitrary 64-bit values; whole-function runs on boards with <= 2 pieces",
+    "outside": "history lists longer than 6 entries (the count is a fold over the list); C05.4 (discarding history at captures is harmless) is a written monotonicity argument over C02/C08 invariants; the no-collision assumption",
+    "stubs": ALLOC_STUBS + "; " + ABS_NOTE + "; " + IND_NOTE,
+    "assumptions": [INV_RULES, COLLISION],
+}
+PLAN["C06"] = {
+    "quick": hs(["c06_remove_s3_none", "c06_remove_s2_pull"], unwind=8, stubs="alloc+absmove") +
+             hs(["c06_whole2_s3_none", "c06_whole2_s1_pull"], unwind=10, stubs="alloc+indicator") +
+             hs(["c05_passing_like_s3_pull"], unwind=8, stubs="alloc+absmove"),
+    "thorough": hs(["c06_remove_s3_none", "c06_remove_s3_pull", "c06_remove_s3_push", "c06_remove_s2_pull", "c06_remove_s1_none"], unwind=8, stubs="alloc+absmove", cap=5400) +
+                inst("c06_whole2", unwind=10, stubs="alloc+indicator") + inst("c06_whole3", [(3, "none"), (3, "pull"), (3, "push")], unwind=14, stubs="alloc+indicator", cap=7200) +
+                hs(["c05_passing_like_s3_%s" % k for k in ("none", "pull", "push")], unwind=8, stubs="alloc+absmove"),
+    "bounds": "private filter: all boards, arbitrary 2-entry lists (steps or pass), history <= 6; whole functions: boards with <= 2 (3 thorough at step 3) pieces, history <= 4",
+    "outside": "whole-function list relation on boards with more pieces (the filter is applied entry-wise by Vec::retain; decided on arbitrary lists through the hook)",
+    "stubs": ALLOC_STUBS + "; " + ABS_NOTE + "; " + IND_NOTE + " (the list relation is table-independent)",
+    "assumptions": [INV_RULES, COLLISION],
+}
+PN = ["term", "hasmove", "canpass"]
+PLAN["C07"] = {
+    "quick": hs(["c07_summary_term_s0_none", "c07_summary_term_s2_pull", "c07_summary_hasmove_s1_push", "c07_summary_canpass_s1_none"], unwind=16, stubs="alloc+lowest") +
+             hs(["c07_has_non_passing_s3_none"], unwind=8, stubs="alloc+absmove") +
+             hs(["c07_small2_term_s3_none"], unwind=10, stubs="alloc+indicator") + hs(["c09_offered"], unwind=8, stubs="alloc"),
+    "thorough": hs(["c07_summary_%s_s%d_%s" % (pn, a, b) for pn in PN for a, b in INST], unwind=16, stubs="alloc+lowest") +
+                hs(["c07_has_non_passing_s3_none", "c07_has_non_passing_s3_pull", "c07_has_non_passing_s3_push", "c07_has_non_passing_s2_pull"], unwind=8, stubs="alloc+absmove", cap=5400) +
+                hs(["c07_small2_%s_s%d_%s" % (pn, a, b) for pn in PN for a, b in INST], unwind=10, stubs="alloc+indicator") +
+                hs(["c05_can_pass_s%d_%s" % (a, b) for a, b in INST], unwind=8, stubs="alloc") + hs(["c09_offered"], unwind=8, stubs="alloc"),
+    "bounds": ("all boards for steps 0-2 and for step 3 after a capture (lowest-bit projection); step 3 without capture: private summary on arbitrary lists of <= 2 steps "
+               "(all boards) and whole functions on boards with <= 2 pieces; history <= 6 arbitrary entries; setup: every reachable setup board"),
+    "outside": "whole-function claim at step 3 without a capture on boards with more than 2 pieces",
+    "stubs": ALLOC_STUBS + "; " + LOWEST_NOTE + "; " + ABS_NOTE + "; " + IND_NOTE,
+    "assumptions": [INV_RULES],
+}
+def c19(insts, parts, **kw):
+    out = []
+    for st, k in insts:
+        for pn in parts:
+            if pn == "pass" and (st == 0 or k == "push"):
+                continue
+            out.append(dict({"h": "c19_%s_s%d_%s" % (pn, st, k), "unwind": 12, "stubs": "alloc+focus", "mode": "full"}, **kw))
+    return out
+
+
+PLAN["C19"] = {
+    "quick": c19([(0, "none"), (2, "push")], ["lists", "queries"]) + c19([(1, "pull"), (3, "none")], ["apply", "pass"]) +
+             hs(["c19_setup_queries", "c19_setup_place"], unwind=8, stubs="alloc", mode="full") + hs(["c19_mbts_k4"], unwind=6, stubs="alloc", mode="full"),
+    "thorough": c19(INST, ["lists", "queries", "apply", "pass"], cap=5400) +
+                hs(["c19_setup_queries", "c19_setup_place"], unwind=8, stubs="alloc", mode="full") + hs(["c19_mbts_k4"], unwind=6, stubs="alloc", mode="full") +
+                hs(["c19_mbts_k12"], unwind=14, stubs="alloc", mode="full"),
+    "bounds": ("every invariant-satisfying play state (all boards, symbolic pending, history <= 6, move number < usize::MAX) and every setup board; "
+               "queries: valid_actions(_no_rep), is_terminal, has_move, can_pass, transposition_hash, piece_board_for_step(j <= step), accessors, "
+               "trapped_animal_for_action and take_action for an arbitrary legal step / pass / offered placement; all Kani checks on"),
+    "outside": ("the printed form (Display through core::fmt did not finish within the cap even on a concrete state); piece_board_for_step/current_step during setup "
+                "(they panic by design: there is no turn); move_number == usize::MAX; map_bit_board_to_squares on masks with more than 12 bits"),
+    "stubs": ALLOC_STUBS + "; " + PROJ_NOTE,
+    "assumptions": [INV_RULES, "move_number < usize::MAX"],
+}
+
+PLAN["TMP"] = {
+    "quick": [{"h": h} for h in ["c07_summary_term_s2_pull", "c07_summary_hasmove_s0_none", "c07_summary_canpass_s1_none",
+                                 "c07_small1_term_s3_none", "c06_whole1_s3_none", "c06_whole2_s1_pull", "c07_small2_term_s2_none",
+                                 "c19_lists_s0_none", "c19_queries_s2_push", "c19_apply_s1_pull", "c19_pass_s3_none", "c19_setup_queries", "c19_setup_place",
+                                 "c16_print_square", "c16_print_action_move", "c16_action_parse_len3"]],
+    "thorough": [],
+}
+for j in PLAN["TMP"]["quick"]:
+    if j["h"].startswith("c19") or j["h"].startswith("c16"):
+        j["mode"] = "full"
